@@ -341,13 +341,33 @@ def explore_program(res: core.UnitResult, program: dict, pair_limit: int = 48):
         nxt["_problems"] = problems
         return nxt
 
+    class Enough(Exception):
+        pass
+
     def on_transition(src, op, dst, hist):
         for tag, msg in dst["_problems"]:
             found.append((tag, msg, hist))
+        if len(found) >= 8:
+            # counterexamples are in hand; a broken implementation can blow the state space up
+            raise Enough()
 
-    out = core.closure(
-        mach.snapshot(), mach.ops, step, mach.canon, on_transition, max_states=MAX_STATES
-    )
+    try:
+        out = core.closure(
+            mach.snapshot(), mach.ops, step, mach.canon, on_transition, max_states=MAX_STATES
+        )
+    except Enough:
+        out = None
+    if out is None or found:
+        # report and stop: the remaining passes only make sense on a coherent implementation
+        seen_tags = set()
+        for tag, msg, hist in found:
+            if tag not in seen_tags:
+                seen_tags.add(tag)
+                res.violation("closure", f"{tag}", {"program": program, "history": hist}, f"{msg} after history {hist} on program {program['items']}")
+        res.transitions += len(found)
+        res.executions += len(found)
+        res.states += 1
+        return {"states": 1, "transitions": len(found), "max_depth": 0, "closed": False, "history": lambda c: [], "seen": {None: None}}
 
     # save/restore, compositionally: for every reachable state S1 (saved through the
     # public Model.state getter) and reachable current state S2, `Model.state = saved`
@@ -363,6 +383,8 @@ def explore_program(res: core.UnitResult, program: dict, pair_limit: int = 48):
         strided = strided or stride > 1
         novel = []
         for c1 in cs:
+            if len(found) >= 8:
+                break
             s1 = out["snaps"][c1]
             mach.restore(s1)
             problems, _ = mach.execute(("save",))
@@ -388,7 +410,12 @@ def explore_program(res: core.UnitResult, program: dict, pair_limit: int = 48):
                     novel.append((nxt, c2, ("restore-from", tuple(out["history"](c1)))))
         if not novel:
             break
-        out = core.closure(novel, mach.ops, step, mach.canon, on_transition, max_states=MAX_STATES, resume=out)
+        if len(found) >= 8:
+            break
+        try:
+            out = core.closure(novel, mach.ops, step, mach.canon, on_transition, max_states=MAX_STATES, resume=out)
+        except Enough:
+            break
     res.transitions += pairs
     res.executions += pairs
     res.extra["restore_pairs"] = res.extra.get("restore_pairs", 0) + pairs
@@ -407,6 +434,8 @@ def explore_program(res: core.UnitResult, program: dict, pair_limit: int = 48):
         seen_tags.add(tag)
         res.violation("closure", f"{tag}", {"program": program, "history": hist}, f"{msg} after history {hist} on program {program['items']}")
 
+    if found:
+        return out
     # self-check: BFS histories replayed through the public API on a fresh model
     cs = list(out["seen"])
     stride = max(1, len(cs) // 60)
